@@ -966,3 +966,51 @@ func genC15(r *Rand, p *Plan, tier string) {
 	p.Tape = r.Tape(2500)
 	p.MaxSteps = 4000
 }
+
+// genC17ref: shutdown of the reference server while its handlers are parked at logger,
+// keychain and sink seams in the middle of AAA exchanges.
+func genC17ref(r *Rand, p *Plan, tier string) {
+	p.Family = "shutdown-ref"
+	p.Scen.Server = "ref"
+	p.Scen.Format = "yaml"
+	p.Scen.Stall = r.Chance(50)
+	p.Scen.Faulty = true // cancellation cuts exchanges short: completeness clauses are off
+	if r.Chance(40) {
+		p.Mode = "batch"
+	}
+	d := GenDoc(r, DocOpts{Scopes: 1, Keychain: true})
+	d.Normalize()
+	g := &refGen{r: r, d: d, sid: uint32(r.Intn(1 << 20))}
+	g.names, g.pws = DocUsers(d)
+	p.Scen.Docs = []model.Doc{d}
+	n := 1 + r.Intn(up(4))
+	for ci := 0; ci < n; ci++ {
+		cs := ClientSpec{Addr: ClientAddrFor(r, d, 0, ci), NotBefore: r.Intn(20)}
+		adm := RefAdmission(d, &cs)
+		cs.Key = []byte(adm.Key)
+		var scripts []SessScript
+		for k := 1 + r.Intn(3); k > 0; k-- {
+			switch r.Intn(3) {
+			case 0:
+				scripts = append(scripts, g.authenSess(adm.Scope, 0))
+			case 1:
+				scripts = append(scripts, g.authorSess(adm.Scope, 0))
+			default:
+				scripts = append(scripts, g.acctSess(adm.Scope, 0, false))
+			}
+		}
+		cs.Ops = Interleave(r, scripts, r.Bool())
+		cs.Ops = append(cs.Ops, Op{Kind: PickOf(r, "idle", "close", "idle")})
+		p.Scen.Clients = append(p.Scen.Clients, cs)
+	}
+	p.Scen.Ctl = append(p.Scen.Ctl, Ctl{Kind: "cancel", NotBefore: r.Intn(50)})
+	if r.Chance(30) {
+		p.Scen.Ctl = append(p.Scen.Ctl, Ctl{Kind: "accept-fault", Arg: PickOf(r, "temp", "fatal", "plain"), NotBefore: r.Intn(40)})
+	}
+	p.Park = []string{PickOf(r, "log:record", "log:accepting user", "log:failed to validate", "log:detected user", "keychain", "sink", "log:prefix secret provider", "log:[%v] sessionID is complete", "log:context cancellation")}
+	if r.Chance(30) {
+		p.Park = append(p.Park, PickOf(r, "log:record", "sink", "log:Stopping server listener"))
+	}
+	p.Tape = r.Tape(2000)
+	p.MaxSteps = 2500
+}
